@@ -2608,6 +2608,52 @@ fn quick_repo_checks(target: &Path) -> Result<(), SanityCheckError> {
     let _ = gitutil::git_dir(target).map_err(SanityCheckError::from)?;
     Ok(())
 }
+#[cfg(feature = "verif-hooks")]
+pub mod verif {
+    //! Wrappers used by the verification harness (cargo feature `verif-hooks`).
+    use super::*;
+
+    fn ctx(refs: HashMap<String, String>, is_bare: bool, replace_refs: usize) -> SanityCheckContext {
+        SanityCheckContext {
+            repo_path: std::path::PathBuf::from("."),
+            is_bare,
+            config: GitConfig {
+                ignore_case: false,
+                precompose_unicode: false,
+                origin_url: None,
+            },
+            refs,
+            replace_refs: (0..replace_refs).map(|i| format!("{:040x}", i)).collect(),
+        }
+    }
+
+    /// the freshness formula of the pre-flight
+    pub fn freshly_packed(replace_refs: usize, packs: usize, loose_count: usize) -> bool {
+        check_replace_refs_in_loose_objects_with_context(
+            &ctx(HashMap::new(), false, replace_refs),
+            packs,
+            loose_count,
+        )
+    }
+
+    /// `check_unpushed_changes_with_context` on a supplied ref map: the sorted names of the
+    /// offending branches (empty = accepted)
+    pub fn unpushed(refs: HashMap<String, String>, is_bare: bool) -> Vec<String> {
+        match check_unpushed_changes_with_context(&ctx(refs, is_bare, 0)) {
+            Ok(()) => Vec::new(),
+            Err(SanityCheckError::UnpushedChanges { unpushed_branches }) => {
+                let mut v: Vec<String> = unpushed_branches
+                    .into_iter()
+                    .map(|b| b.branch_name)
+                    .collect();
+                v.sort();
+                v
+            }
+            Err(_) => vec!["<other error>".to_string()],
+        }
+    }
+}
+
 #[cfg(test)]
 mod tests {
     use super::*;
